@@ -113,13 +113,13 @@ def run_case(case, ctx):
             if (r["ddict"].get("__error__") is None) != (err is None) and not (err is not None and not cfg.get("one_by_one")):
                 ctx.viol("depends-on-the-dict-type-of-the-seed-table", {**info, "base_error": err, "defaultdict_error": r["ddict"].get("__error__"), "hashseed": h})
                 return
-            for variant in ("perm", "hist", "reuse", "used", "late", "info", "ddict", "shipped"):
+            for variant in ("perm", "hist", "reuse", "used", "late", "info", "ddict", "shipped", "reconf"):
                 ctx.count("in_process_metamorphic_comparisons")
                 if err is None and r[variant].get("__error__") is None:
                     for n in names:
                         if r[variant][n] != r["base"][n]:
                             ctx.viol("depends-on-" + {"perm": "listing-order", "hist": "prior-stream-use",
-                                                      "reuse": "what-the-updater-served-before", "used": "prior-stream-use", "shipped": "the-stream-having-been-copied",
+                                                      "reuse": "what-the-updater-served-before", "used": "prior-stream-use", "shipped": "the-stream-having-been-copied", "reconf": "what-the-seed-table-held-before",
                                                       "late": "when-the-seed-table-was-filled", "info": "another-seed-information-object",
                                                       "ddict": "the-dict-type-of-the-seed-table"}[variant],
                                      {**info, "stream": n, "base": r["base"][n], variant: r[variant][n], "hashseed": h})
